@@ -98,6 +98,48 @@ pub fn exec(cx: &mut Ctx, c: &Case) {
             &format!("{}|wrong-digest", sigp),
             &format!("len {}: digest {} reference {} (first difference at byte {})", c.len, hex(&got), hex(&exp), i),
         );
+        return;
+    }
+    // "for every byte string": the same message fed through update() in a seeded partition
+    // (a short prefix followed by long pieces, block-straddling cuts) must give the same digest
+    if c.len > 0 {
+        let mut r = Rng::new(c.mseed ^ 0x5917);
+        let bs = c.id.block_size();
+        let mut cuts: Vec<usize> = Vec::new();
+        let first = match r.below(4) {
+            0 => 1,
+            1 => bs - 1,
+            2 => r.below(bs as u64) as usize,
+            _ => r.below(c.len as u64 + 1) as usize,
+        };
+        cuts.push(first.min(c.len));
+        if r.below(2) == 0 && c.len > first {
+            cuts.push((first + 1 + r.below((c.len - first) as u64) as usize).min(c.len));
+        }
+        api::force_backend(c.fb);
+        let inc = guarded(|| {
+            let mut h = c.id.new();
+            let mut at = 0;
+            for &k in &cuts {
+                h.update(&m[at..k]);
+                at = k;
+            }
+            h.update(&m[at..]);
+            h.finalize_box()
+        });
+        api::force_backend(0);
+        cx.log.eval(1);
+        match inc {
+            Ok(g) => {
+                if g != exp {
+                    cx.log.violation(
+                        &format!("{}|wrong-digest-incremental", sigp),
+                        &format!("len {} fed in pieces cut at {:?}: digest {} reference {}", c.len, cuts, hex(&g), hex(&exp)),
+                    );
+                }
+            }
+            Err(p) => cx.log.panic_violation(&format!("{}|incremental", sigp), &p),
+        }
     }
     cx.log.event("digest_bytes_compared", exp.len() as u64);
     cx.log.event("message_bytes", c.len as u64);
